@@ -8,7 +8,7 @@
   "flags": [],
   "driver": "inline"
  },
- "detail": "C19: run_inline reported categories ['fix', 'trim'] but the report session lists ['create', 'fix', 'trim']\n        for x in (29, 30):\n>           assert x in snapshot([29, 99])\nE           assert 30 in [29, 99]\nE            +  where [29, 99] = snapshot([29, 99])\n\ntest_something.py:6: AssertionError\n___________________________________ test_le ____________________________________\n\n    def test_le():\n>       assert 29 <= snapshot(28)\nE       assert 29 <= 28\nE        +  where 28 = snapshot(28)\n\ntest_something.py:10: AssertionError\n==================================== PASSES ====================================\n------------ generated xml file: /tmp/bsess-out-th4tzy6h/junit.xml -------------\n=========================== short test summary info ============================\nPASSED test_something.py::test_ge\nPASSED test_something.py::test_key\nERROR test_something.py::test_in - Failed: some snapshots in this test have i...\nERROR test_something.py::test_le - Failed: some snapshots in this test have i...\nERROR test_something.py::test_key - Failed: your snapshot is missing one value.\nFAILED test_something.py::test_in - assert 30 in [29, 99]\nFAILED test_something.py::test_le - assert 29 <= 28\n==================== 2 failed, 2 passed, 3 errors in 1.73s ====================="
+ "detail": "C19: run_inline reported categories ['fix', 'trim'] but the report session lists ['create', 'fix', 'trim']\n        for x in (29, 30):\n>           assert x in snapshot([29, 99])\nE           assert 30 in [29, 99]\nE            +  where [29, 99] = snapshot([29, 99])\n\ntest_something.py:6: AssertionError\n___________________________________ test_le ____________________________________\n\n    def test_le():\n>       assert 29 <= snapshot(28)\nE       assert 29 <= 28\nE        +  where 28 = snapshot(28)\n\ntest_something.py:10: AssertionError\n==================================== PASSES ====================================\n------------ generated xml file: /tmp/bsess-out-oq73wt8o/junit.xml -------------\n=========================== short test summary info ============================\nPASSED test_something.py::test_ge\nPASSED test_something.py::test_key\nERROR test_something.py::test_in - Failed: some snapshots in this test have i...\nERROR test_something.py::test_le - Failed: some snapshots in this test have i...\nERROR test_something.py::test_key - Failed: your snapshot is missing one value.\nFAILED test_something.py::test_in - assert 30 in [29, 99]\nFAILED test_something.py::test_le - assert 29 <= 28\n==================== 2 failed, 2 passed, 3 errors in 3.05s ====================="
 }
 """
 
